@@ -691,6 +691,19 @@ impl Session {
                 }
                 f.ok();
             }
+            "decap_storm" => {
+                let threads = (a.u("threads") as usize).clamp(2, 64);
+                let reps = (a.u("reps") as usize).clamp(1, 10_000_000);
+                let (bad, calls) = self.kem.as_ref().unwrap().decap_storm(a.b("ikm"), threads, reps);
+                f.ok().kv("mism", bad).kv("calls", calls).kv("threads", threads);
+            }
+            "errfmt" => {
+                let v = self.kem.as_ref().unwrap().error_strings();
+                f.ok();
+                for (i, sx) in v.iter().enumerate() {
+                    f.kv(&format!("e{}", i), lang::hex(sx.as_bytes()));
+                }
+            }
             "liveness" => {
                 // Which sightings of a secret (or of a transformed copy) inside the live context are actually READ by
                 // the library?  Each sighting is inverted in place, the context's observable behaviour (an export and,
